@@ -333,6 +333,23 @@ def removeAll (s : St) (l : Hdr) (m : Mem) : Stat × List Nat × St × Hdr × Me
   if r.1 then (.ok, r.2.2.2.1, r.2.1, { r.2.2.1 with head := none, tail := none }, r.2.2.2.2)
   else (.errValueNotFound, [], s, l, m)
 
+/-- the loop of `cc_list_filter_mut`: `next = curr->next` is read before the node may be unlinked (and freed) -/
+def filterMutLoop (pr : Nat → Bool) : Nat → St → Hdr → Option Nat → Mem → St × Hdr × Mem
+  | 0, s, l, _, m => (s, l, m)
+  | _, s, l, none, m => (s, l, m)
+  | k + 1, s, l, some curr, m =>
+    let next := (nd s.heap curr).next
+    if !pr (nd s.heap curr).data then
+      let u := unlinkn s l curr m
+      filterMutLoop pr k u.2.1 u.2.2.1 next u.2.2.2
+    else filterMutLoop pr k s l next m
+
+/-- `cc_list_filter_mut` -/
+def filterMut (pr : Nat → Bool) (s : St) (l : Hdr) (m : Mem) : Stat × St × Hdr × Mem :=
+  if l.size = 0 then (.errOutOfRange, s, l, m) else
+  let r := filterMutLoop pr l.size s l l.head m
+  (.ok, r.1, r.2.1, r.2.2)
+
 /-- `cc_list_destroy` / `cc_list_destroy_cb`: all nodes, then the header -/
 def destroy (s : St) (l : Hdr) (m : Mem) : List Nat × St × Mem :=
   let r := unlinknAll s l m
@@ -443,17 +460,18 @@ def addAll (s : St) (l1 l2 : Hdr) (m : Mem) : Stat × St × Hdr × Mem :=
 /-! ### iterator mutators
 
 The cursor positions stay with the sequence-level iterator models; at the level of raw links an iterator mutator is
-the pointer surgery on the node `iter->last` (given by its id) with the `index` test of the C text. -/
+the pointer surgery on the node `iter->last` (given by its id); `tail` follows the C text after the repair of defect L6:
+`if (!new_node->next) list->tail = new_node` (no `index` test any more). -/
 
-/-- `cc_list_iter_add` (ascending) with `iter->last = last`, `iter->index = index` -/
-def iterAddAt (s : St) (l : Hdr) (last index x : Nat) (m : Mem) : Stat × St × Hdr × Mem :=
+/-- `cc_list_iter_add` (ascending) with `iter->last = last` -/
+def iterAddAt (s : St) (l : Hdr) (last x : Nat) (m : Mem) : Stat × St × Hdr × Mem :=
   let a := m.allocT l.triple
   if !a.1 then (.errAlloc, s, l, a.2) else
   let m := a.2
   let (new, s) := s.alloc
   let h := setData s.heap new x
   let h := linkAfter h last new
-  let l := if index = l.size then { l with tail := some new } else l
+  let l := if (nd h new).next = none then { l with tail := some new } else l
   (.ok, { s with heap := h }, { l with size := l.size + 1 }, m)
 
 /-- `cc_list_diter_add` (descending) with `iter->last = last`, `iter->index = index` -/
@@ -474,7 +492,7 @@ def iterRemoveAt (s : St) (l : Hdr) (last : Nat) (m : Mem) : Nat × St × Hdr ×
 def iterReplaceAt (s : St) (last x : Nat) : Nat × St := ((nd s.heap last).data, { s with heap := setData s.heap last x })
 
 /-- `cc_list_zip_iter_add` -/
-def zipAddAt (s : St) (l1 l2 : Hdr) (last1 last2 index x1 x2 : Nat) (m : Mem) : Stat × St × Hdr × Hdr × Mem :=
+def zipAddAt (s : St) (l1 l2 : Hdr) (last1 last2 x1 x2 : Nat) (m : Mem) : Stat × St × Hdr × Hdr × Mem :=
   let a1 := m.allocT l1.triple
   if !a1.1 then (.errAlloc, s, l1, l2, a1.2) else
   let a2 := a1.2.allocT l2.triple
@@ -486,8 +504,8 @@ def zipAddAt (s : St) (l1 l2 : Hdr) (last1 last2 index x1 x2 : Nat) (m : Mem) : 
   let h := setData h new2 x2
   let h := linkAfter h last1 new1
   let h := linkAfter h last2 new2
-  let l1 := if index = l1.size then { l1 with tail := some new1 } else l1
-  let l2 := if index = l2.size then { l2 with tail := some new2 } else l2
+  let l1 := if (nd h new1).next = none then { l1 with tail := some new1 } else l1
+  let l2 := if (nd h new2).next = none then { l2 with tail := some new2 } else l2
   (.ok, { s with heap := h }, { l1 with size := l1.size + 1 }, { l2 with size := l2.size + 1 }, m)
 
 /-- `cc_list_new_conf` (the header is not a node: it only costs one allocation) -/
